@@ -223,12 +223,17 @@ func (c *Ctx) Expired() bool {
 // Violation reports a property violation with a canonical signature. It is
 // matched against the known-findings file; unlisted signatures make the run
 // fail.
+var showKnown = os.Getenv("VERIF_SHOWKNOWN") != ""
+
 func (c *Ctx) Violation(sig string, detail any) {
 	c.mu.Lock()
 	defer c.mu.Unlock()
 	for _, f := range c.findings {
 		if f.re.MatchString(sig) {
 			c.known[f.ID]++
+			if showKnown {
+				fmt.Fprintf(os.Stderr, "known[%s] %s\n", f.ID, sig)
+			}
 			return
 		}
 	}
